@@ -38,9 +38,10 @@ const PI: f64 = std::f64::consts::PI;
 const TWO_PI: f64 = 2.0 * PI;
 /// max |fast_atan2 − atan2| (measured 2.035e-4 at the octant diagonals) with a little slack
 const ATAN_ERR: f64 = 2.1e-4;
-/// normalised radial deviation bounds (measured maxima 3.2e-3 / 2.8e-4 for full 45° / 90° steps, ×3)
+/// normalised radial deviation bounds: measured maxima 3.2e-3 (quadratics, full 45° step) and 1.97e-3
+/// (cubics, full 90° step: lyon's alpha formula gives kappa = 0.5486 for a quarter turn), × 3
 const QUAD_DEV: f64 = 1.0e-2;
-const CUBIC_DEV: f64 = 1.0e-3;
+const CUBIC_DEV: f64 = 6.0e-3;
 
 fn lyon_eps<S: Fl>() -> f64 {
     S::EPSILON.f()
@@ -269,9 +270,14 @@ fn bezier_oracle<S: Fl>(
         orc.check(ee <= tol, &cl(&format!("{}/ends-at-to", kind)), cls_end, || format!("err={:e} tol={:e} sweep={}", ee, tol, sweep));
         // stays near the true ellipse, and runs through it in the arc's direction
         let step = eff / n as f64 * sgn;
-        let tiny = kind == "quads" && e.rx.abs() * e.ry.abs() * step.sin().abs() <= lyon_eps::<S>() * 1.01;
-        let cls_dev = if tiny { "tiny-radii-abs-epsilon" } else { "generic" };
+        let det = e.rx.abs() * e.ry.abs() * step.sin().abs();
+        let tiny = kind == "quads" && det <= lyon_eps::<S>() * 1.01;
         let dev_tol = dev_bound + 64.0 * S::EPS * (1.0 + (e.cx.abs().max(e.cy.abs())) / e.rmin()) * e.ecc().min(1e6);
+        // `Line::intersection` works with cross products of absolute positions `p × (p + v)`: a-priori
+        // rounding bound 4·eps·M²·|v| / det on the control point (M = distance from the origin,
+        // v = tangent, det = cross product of the tangents), here in units of the smaller radius
+        let mm = e.cx.abs().max(e.cy.abs()) + e.rmax();
+        let amp = if kind == "quads" { 4.0 * S::EPS * mm * mm * e.rmax() / det / e.rmin() } else { 0.0 };
         let mut worst = 0.0f64;
         let mut worst_ang = 0.0f64;
         for i in 0..n {
@@ -285,10 +291,17 @@ fn bezier_oracle<S: Fl>(
                 worst_ang = worst_ang.max(angdiff(v.atan2(u), expect).abs());
             }
         }
+        let cls_dev = if tiny {
+            "tiny-radii-abs-epsilon"
+        } else if amp > dev_bound * 0.01 && worst <= dev_tol + amp {
+            "ctrl-intersection-cancellation"
+        } else {
+            "generic"
+        };
         orc.check(worst <= dev_tol, &cl(&format!("{}/near-ellipse", kind)), cls_dev, || {
-            format!("normalised deviation {:e} bound {:e} (n={} step={})", worst, dev_tol, n, step)
+            format!("normalised deviation {:e} bound {:e} (n={} step={} cancellation-estimate {:e})", worst, dev_tol, n, step, amp)
         });
-        let ang_tol = 0.03 * step.abs() + 1e-3 + 64.0 * S::EPS * (1.0 + start.abs() + sweep.abs()) + tol / e.rmin();
+        let ang_tol = 0.03 * step.abs() + 1e-3 + 64.0 * S::EPS * (1.0 + start.abs() + sweep.abs()) + tol / e.rmin() + amp;
         orc.check(worst_ang <= ang_tol || tiny, &cl(&format!("{}/direction", kind)), "generic", || {
             format!("angular offset {:e} tol {:e}", worst_ang, ang_tol)
         });
@@ -559,11 +572,12 @@ fn arc_case<S: Fl>(ctx: &mut Ctx) {
             let e = Ell::of(&a);
             let ang = a.start_angle.radians.f() + sw * t.f();
             let h = 1e-5;
-            let (p1, p0) = (e.at(ang + h), e.at(ang - h));
+            let e0 = Ell { cx: 0.0, cy: 0.0, ..e };
+            let (p1, p0) = (e0.at(ang + h), e0.at(ang - h));
             let d = ((p1.0 - p0.0) / (2.0 * h), (p1.1 - p0.1) / (2.0 * h));
             let tv = a.sample_tangent(t);
             let et = d2((tv.x.f(), tv.y.f()), d);
-            let ttol = (64.0 * S::EPS * (1.0 + ang.abs()) + 1e-8) * e.rmax();
+            let ttol = (64.0 * S::EPS * (1.0 + ang.abs()) + 1e-9) * e.rmax();
             orc.check(et <= ttol, "arc.sample_tangent/derivative", "generic", || format!("err={:e} tol={:e}", et, ttol));
             bezier_oracle(&mut orc, "arc", &a, &quads, &plain, &cubics);
             CaseOut { imp: o, orcl: orc.verdict }
@@ -676,12 +690,20 @@ fn check_path(orc: &mut Oracle, site: &str, path: &Path, s: &SvgArc<f32>, straig
         "generic"
     };
     // near the reference ellipse (drift of the centre-form arc included in the bound)
-    let tiny = r.e.rx * r.e.ry * (PI / 4.0).sin() <= 1e-4 * 1.01;
+    // WithSvg::arc converts in f64 (S::EPSILON = 1e-8, eps 2^-52), the parser in f32
+    let (leps, meps) = if site == "api.arc_to" { (1e-8, f64::EPS) } else { (1e-4, f32::EPS) };
+    let nref = (r.dth.abs() / (PI / 4.0)).ceil().max(1.0);
+    let det = r.e.rx * r.e.ry * (r.dth.abs() / nref).sin().abs();
+    let tiny = det <= leps * 1.01;
+    let mm = r.e.cx.abs().max(r.e.cy.abs()) + r.e.rmax();
+    let amp = 4.0 * meps * mm * mm * r.e.rmax() / det / r.e.rmin();
     let dev_tol = QUAD_DEV + (tol + drift) / r.e.rmin();
     let cls_dev = if site == "api.arc_to" && !circle {
         "ellipse-polar-start-angle"
     } else if tiny {
         "tiny-radii-abs-epsilon"
+    } else if amp > QUAD_DEV * 0.01 && worst <= dev_tol + amp {
+        "ctrl-intersection-cancellation"
     } else {
         "generic"
     };
@@ -713,7 +735,7 @@ fn api_case(ctx: &mut Ctx) {
                     "M {} {} A {} {} {} {} {} {} {}",
                     s.from.x, s.from.y, s.radii.x, s.radii.y, deg, s.flags.large_arc as u8, s.flags.sweep as u8, s.to.x, s.to.y
                 );
-                let mut b = Path::builder().with_svg();
+                let mut b = Path::builder();
                 let res = PathParser::new().parse(&ParserOptions::DEFAULT, &mut Source::new(src.chars()), &mut b);
                 orc.check(res.is_ok(), "api.parser/parses", "generic", || format!("{:?} on {}", res, src));
                 let path = b.build();
